@@ -3,13 +3,14 @@
 Bounded stand-in (T2).  A *history* is: an initial namespace built by
 `TaxonNamespace(labels, is_case_sensitive=cs)` from a label sequence over
 {"a","A","b","a"} (duplicates and case variants), followed by a sequence of
-operations from the alphabet of `ops_at` (add_taxon of a new / an existing taxon,
+operations from the alphabet of `ops_at` (add_taxon of a new / an existing / a previously
+removed taxon,
 new_taxon, require_taxon, add_taxa, new_taxa, remove_taxon, `del ns[i]`,
 remove_taxon_label, discard_taxon_label (every case setting x first_match_only),
 sort, reverse, clear, relabel of a member, switching to copy.copy / TaxonNamespace(ns)
 / copy.deepcopy of the namespace, freezing (is_mutable = False)).  EVERY history of
-length <= D (D = 2 quick, 3 thorough) over the full alphabet from every initial
-namespace and both case settings is run, each in two modes: "cold" (nothing is
+length <= 2 over the full alphabet from every initial namespace and both case settings
+(thorough: also every history of length 3 from the initial sequences (a,A) and (a,A,b)) is run, each in two modes: "cold" (nothing is
 queried before the end, so no bitmask / lower-case cache is filled early) and "warm"
 (taxon_bitmask of every member and a label lookup after every operation, as an
 interactive user would).  A seeded sample of longer histories is a second scope.
@@ -28,7 +29,8 @@ unchanged).  At the end of every history the full monitor set runs:
   bitmask_as_newick_string.names_mask / split_as_newick_string.names_mask / bitmask_as_bitstring.names_mask
                                      the "1" side names (multiset of labels) exactly the subset, the other side
                                      exactly the other members; the flat form "(a,b,c);" is accepted for the
-                                     empty and the full subset ("do not do the root")
+                                     empty and the full subset ("do not do the root"); failures on namespaces whose
+                                     list order differs from the accession order go to `....names_mask.reordered`
   findall.exact / get_taxon.first_match / has_taxon_label.exact / get_taxa.exact / has_taxa_labels.exact /
   taxa_bitmask.labels / contains.exact       label lookups = members matching under the effective case rule,
                                      in membership order
@@ -108,6 +110,7 @@ def ops_at(n_members):
             for first in (False, True):
                 out.append(("remove_label", lb, c, first))
                 out.append(("discard_label", lb, c, first))
+    out.append(("readd",))                        # add the most recently removed taxon object again
     out.append(("add_taxa", ["b", "@0", "a"]))   # '@0' = the first current member (already in)
     out.append(("new_taxa", ["a", "A"]))
     out.append(("sort", False))
@@ -144,6 +147,7 @@ class Run(object):
         self.members = list(self.ns._taxa)          # model: expected members in order
         self.bits = {}                              # id(taxon) -> bit at joining time
         self.keep = list(self.members)              # keep every taxon alive (ids stay unique)
+        self.was_member = set(self.members)         # taxa that have been members of the current namespace object
         self.fails = []                             # (monitor, probe, detail)
         self.sync_bits("init")
         if len(self.members) != len(init) or [t._label for t in self.members] != list(init):
@@ -214,6 +218,14 @@ class Run(object):
             elif name == "add_member":
                 expect = before
                 ns.add_taxon(before[op[1]])
+            elif name == "readd":
+                gone = [t for t in self.keep if not any(t is x for x in before) and t in self.was_member]
+                if not gone:
+                    return True
+                t = gone[-1]
+                allowed = () if mutable else (ImmutableTaxonNamespaceError,)
+                expect = before + [t] if mutable else before
+                ns.add_taxon(t)
             elif name == "new":
                 allowed = () if mutable else (ImmutableTaxonNamespaceError,)
                 r = ns.new_taxon(op[1])
@@ -336,7 +348,8 @@ class Run(object):
                 return False
             return True
         except Exception as e:
-            self.fails.append(("%s.raises" % self.api(name), "", "%s: %s" % (type(e).__name__, e)))
+            suffix = ".first_match_only" if name in ("remove_label", "discard_label") and op[3] else ""
+            self.fails.append(("%s.raises%s" % (self.api(name), suffix), "", "%s: %s" % (type(e).__name__, e)))
             return False
         if not mutable and len(ns._taxa) > len(before):
             self.fails.append(("immutable.gains_member", "", "members %r -> %r" % (self.describe(before), self.describe(ns._taxa))))
@@ -348,6 +361,7 @@ class Run(object):
                 return False
         else:
             self.members = list(ns._taxa)
+        self.was_member.update(self.members)
         self.sync_bits(name)
         if self.warm:
             self.warm_up()
@@ -355,7 +369,7 @@ class Run(object):
 
     @staticmethod
     def api(name):
-        return {"add": "add_taxon", "add_member": "add_taxon", "new": "new_taxon", "require": "require_taxon",
+        return {"add": "add_taxon", "add_member": "add_taxon", "readd": "add_taxon", "new": "new_taxon", "require": "require_taxon",
                 "remove": "remove_taxon", "delitem": "__delitem__", "remove_label": "remove_taxon_label",
                 "discard_label": "discard_taxon_label", "switch": "copy"}.get(name, name)
 
@@ -377,6 +391,7 @@ class Run(object):
         self.keep.extend(new._taxa)
         self.ns = new
         self.members = list(new._taxa)
+        self.was_member = set(self.members)
         self.bits = newbits
         if self.warm:
             self.warm_up()
@@ -590,7 +605,10 @@ class Run(object):
                 elif p[0] == "flat":
                     ok = sorted(p[1]) == all_labels and (len(sub) == 0 or len(sub) == len(members))
             if not ok:
-                F(("%s.names_mask" % api, probe,
+                # list position == accession index for every member ("aligned") or not: the second case is
+                # where indexing the labels by list position goes wrong, kept under its own monitor name
+                aligned = all(b == (1 << i) for i, b in enumerate(bits))
+                F(("%s.names_mask%s" % (api, "" if aligned else ".reordered"), probe,
                    "mask %s = taxa %r of members %r rendered as %r" % (bin(mask), [t._label for t in taxa], [t._label for t in members], s)))
         try:
             s = ns.bitmask_as_bitstring(mask)
@@ -674,15 +692,20 @@ def _explore(task):
     return out
 
 
-def _tasks(depth):
+INITS_DEEP = [("a", "A"), ("a", "A", "b")]
+
+
+def _tasks(tier):
+    """quick: every history of <= 2 operations from every initial namespace; thorough: in addition every
+    history of 3 operations from the initial namespaces of INITS_DEEP"""
     tasks = []
     for cs in (False, True):
         for init in INITS:
+            depth = 3 if (tier != "quick" and init in INITS_DEEP) else 2
             for warm in (False, True):
                 tasks.append((cs, init, warm, None, depth))
-                if depth >= 1:
-                    for op in ops_at(len(init)):
-                        tasks.append((cs, init, warm, op, depth))
+                for op in ops_at(len(init)):
+                    tasks.append((cs, init, warm, op, depth))
     return tasks
 
 
@@ -720,15 +743,16 @@ def _random_history(args):
 
 
 def t2(ctx):
-    depth = 2 if ctx.tier == "quick" else 3
-    sc = "histories<=%d" % depth
-    ctx.scope(sc, rule="every history of <= %d operations (full alphabet: add/new/require/add_taxa/new_taxa/remove/del/"
+    quick = ctx.tier == "quick"
+    sc = "histories<=2" if quick else "histories<=2(+3)"
+    ctx.scope(sc, rule="every history of <= 2 operations%s (full alphabet: add/readd/new/require/add_taxa/new_taxa/remove/del/"
                        "remove_label/discard_label/sort/reverse/clear/relabel/switch-to-copy/freeze) from %d initial label "
                        "sequences over {a,A,b,a} x both case settings x cold/warm caches; one evaluation = one history with "
                        "the full monitor set on its final state; non-trivial = >= 1 operation and >= 2 taxa ever created"
-                       % (depth, len(INITS)), exhaustive=True)
-    tasks = _tasks(depth)
-    results = pmap(_explore, tasks, chunksize=4)
+                       % ("" if quick else ", and of 3 operations from the initial sequences (a,A) and (a,A,b)", len(INITS)),
+              exhaustive=True)
+    tasks = _tasks(ctx.tier)
+    results = pmap(_explore, tasks, chunksize=1)
     cand, nf = {}, {}
     for task, r in zip(tasks, results):
         cs, init, warm, first, _ = task
